@@ -78,7 +78,9 @@ TRUSTED = [
     "receiver write), the ones for subprotocol g greet from inside connectionMade",
     "ToyNoise with the 65535-byte per-message limit of Noise (LimitedNoise)",
 ]
-RULE = ("schedules of open/write/close on <=3 subchannels per direction (three subprotocol names), real connect() calls "
+RULE = ("schedules of open/write/close on <=3 subchannels per direction (three subprotocol names), both sides writing on "
+        "the same subchannel (the listening application answers through its protocol and closes peer-opened "
+        "subchannels, also as its very first record, with asymmetric loss around the close), real connect() calls "
         "with re-entrant protocols on either side, write sizes at the chunking boundaries of the record layer "
         "(65510/65511/65526/65527, 2x, 3x), interleaved with "
         "use_connection / connection loss / transport pause+resume (pause landing inside the replay loop) / delivery of "
@@ -110,6 +112,7 @@ class HP:
         scid = t._scid
         self.log = self.side.app_log.setdefault(scid, [])
         self.log.append(("open", scid, t.getPeer().subprotocol))
+        self.side.protocols[scid] = self
 
     def dataReceived(self, d):
         self.log.append(("data", self.transport._scid, bytes(d)))
@@ -131,8 +134,7 @@ class GHP(HP):
     def makeConnection(self, t):
         HP.makeConnection(self, t)
         g = bytes([t._scid % 256, 0x67])
-        self.side.issued.append(("data", t._scid, g))
-        t.write(g)
+        t.write(g)          # (the harness' write hook records it as issued by this side)
 
 
 class CP:
@@ -157,8 +159,8 @@ class CP:
     def dataReceived(self, d):
         self.log.append(("data", self.scid, bytes(d)))
 
-    def connectionLost(self, why=None):  # pragma: no cover
-        self.log.append(("lost", self.scid, None))
+    def connectionLost(self, why=None):
+        self.log.append(("close", self.scid, None))
 
 
 class CFactory:
@@ -355,7 +357,20 @@ class SideH:
             if self.hook:
                 self.hook("after", self, record_type, args)
         m._queue_and_send = queue_and_send
+        self.ghook = None       # called around every Manager.got_record: (phase, side, record)
+        gr = m.got_record
+
+        def got_record(r):
+            if self.ghook:
+                self.ghook("before", self, r)
+            gr(r)
+            if self.ghook:
+                self.ghook("after", self, r)
+        m.got_record = got_record
         self.listening = []
+        self.protocols = {}     # scid -> the listening protocol built for a peer-opened subchannel
+        self.connected_scids = []   # scids this side's real connect() allocated, in order
+        self.pclosed = set()    # peer-opened scids this side has sent CLOSE for
         ib = self.ib
         ho, hd, hc = ib.handle_open, ib.handle_data, ib.handle_close
 
@@ -439,7 +454,7 @@ class World:
         if self.kind == "rec" or self.link is None:
             return []
         p = self.link.dcp[s.name]
-        if self.link.gone[s.name] or p._manager is not None:
+        if self.link.gone[s.name]:
             return []
         return list(p._inbound_record_queue)
 
@@ -503,9 +518,9 @@ class World:
         if not s.leader:
             self.feed_hidden(s)                  # the leader's KCM, if it has not been read yet
         lk.pipe[s.name].budget = budget
-        s.conn = lk.pipe[s.name]
-        s.link = lk
         s.eq.flush_sync()                        # the Connector's deferred turn: accept -> select -> connection_made
+        s.conn = lk.pipe[s.name]                 # (only now: while select() drains the parked records the side's
+        s.link = lk                              #  stale in-flight content is still that of its previous link)
         if not s.connected():
             raise TurnFailed("the accept turn did not select the link")
 
@@ -622,10 +637,37 @@ def _run(case, kind):
     emitted = []          # (line, expected) produced by Manager._queue_and_send calls during the current op
     first_snapshot = [None]
 
+    announced = [None]    # the side whose Manager writes were announced (appended to `issued`) by the current op
+    in_use = [None]       # the side whose Connector turn (`use`) is running: every got_record in it is an `unpark`
+    cur_unpark = [None]
+
+    def ghook(phase, side, r):
+        if in_use[0] != side.name:
+            return
+        if phase == "before":
+            cur_unpark[0] = [f"unpark {side.name}", None, show_wire(r)]
+            emitted.append(cur_unpark[0])
+        else:
+            if cur_unpark[0] is not None and cur_unpark[0][1] is None:
+                cur_unpark[0][1] = cur_unpark[0][2] + " " + W.show()
+            cur_unpark[0] = None
+    A.ghook = B.ghook = ghook
+
     def hook(phase, side, record_type, args):
         if phase == "before":
-            if first_snapshot[0] is None:
+            if cur_unpark[0] is not None and cur_unpark[0][1] is None:
+                cur_unpark[0][1] = cur_unpark[0][2] + " " + W.show()   # the state the record's handling left, before the reaction
+            elif first_snapshot[0] is None:
                 first_snapshot[0] = W.show()
+            if announced[0] != side.name:
+                # a write nobody scripted: the SubChannel machine or a protocol reacting to what it was told
+                if record_type is Open:
+                    side.issued.append(("open", args[0], args[1]))
+                elif record_type is Data:
+                    side.issued.append(("data", args[0], bytes(args[1])))
+                else:
+                    side.issued.append(("close", args[0], None))
+                tags.add("reactive-write")
             return
         x = side.name
         if record_type is Open:
@@ -634,7 +676,7 @@ def _run(case, kind):
             line = f"write {x} data {args[0]} {hx(bytes(args[1]))}"
         else:
             line = f"write {x} close {args[0]}"
-        emitted.append((line, "ok " + W.show()))
+        emitted.append([line, "ok " + W.show()])
     A.hook = B.hook = hook
 
     def do(op):
@@ -644,7 +686,36 @@ def _run(case, kind):
         peer = W.peer(s)
         res = "ok"
         line = None           # the op's own model line (None: the op is nothing but Manager writes)
-        if k == "write":
+        announced[0] = None
+        if k in ("panswer", "pclose"):
+            # the application of x acts on the n-th subchannel the PEER connected: it answers through the protocol
+            # it was given (or, for pclose, sends CLOSE for it)
+            n = op[2]
+            if n >= len(peer.connected_scids):
+                return False
+            scid = peer.connected_scids[n]
+            if scid in s.pclosed:
+                return False
+            pr = s.protocols.get(scid)
+            if pr is None:
+                return False                     # the application has no protocol for it yet (OPEN not delivered, or no listener)
+            announced[0] = x
+            if k == "panswer":
+                d = bytes.fromhex(op[3])
+                s.issued.append(("data", scid, d))
+                if not s.ob._outbound_queue and s.ob._next_outbound_seqnum == 0:
+                    tags.add("first-record-is-an-answer")
+                f = lambda: pr.transport.write(d)
+            else:
+                s.issued.append(("close", scid, None))
+                s.pclosed.add(scid)
+                if s.ob._next_outbound_seqnum == 0:
+                    tags.add("first-record-is-an-answer")
+                if any(isinstance(r, Data) and r.scid == scid for r in peer.ob._outbound_queue):
+                    tags.add("close-while-peer-has-unacked-data")
+                f = lambda: s.mgr.send_close(scid)
+        elif k == "write":
+            announced[0] = x
             what = op[2]
             if what == "open":
                 scid, sub = op[3], op[4]
@@ -671,7 +742,9 @@ def _run(case, kind):
             name, greetings, close = op[2], [bytes.fromhex(g) for g in op[3]], op[4]
             if not s.mgr._made_first_connection or s.eq._calls:
                 return False
+            announced[0] = x
             scid = s.mgr._next_subchannel_id
+            s.connected_scids.append(scid)
             s.issued.append(("open", scid, name))
             for g in greetings:
                 s.issued.append(("data", scid, g))
@@ -715,7 +788,12 @@ def _run(case, kind):
             npark = len([r for r in W.parked(s) if not isinstance(r, Ack)])
             if npark:
                 tags.add("parked-burst:" + ("1" if npark == 1 else ">=2"))
-            f = lambda: W.use(s, budget)
+            def f():
+                in_use[0] = x if kind == "l2" else None
+                try:
+                    W.use(s, budget)
+                finally:
+                    in_use[0] = None
         elif k == "lose":
             if not s.connected():
                 if len(op) > 2 and op[2] == "force" and kind == "rec":      # adversarial: stop without a connection
@@ -782,7 +860,8 @@ def _run(case, kind):
                 if s.ob._queued_unsent and s.ob._queued_unsent[0].seqnum <= r.resp_seqnum:
                     tags.add("ack-retires-unsent")
             else:
-                if r.seqnum <= s.ib._highest_inbound_acked:
+                hw = s.ib._highest_inbound_acked
+                if isinstance(hw, int) and r.seqnum <= hw:
                     tags.add("duplicate-dropped")
                 if not s.connected():
                     tags.add("ack-not-sent")
@@ -798,7 +877,21 @@ def _run(case, kind):
             failed = type(e).__name__
         # the op's own line first (its state is the one seen when the first re-entrant write began), then one
         # `write` line per Manager._queue_and_send the op caused, in call order
-        if line is not None:
+        if k == "use" and kind == "l2":
+            # the Connector's turn: one `unpark` per parked record (with the writes its handling caused), then the
+            # connection is handed to the Manager
+            for ent in emitted:
+                lines.append(ent[0])
+                exp.append(ent[1] if ent[1] is not None else (failed or "?"))
+            if any(ent[0].startswith("write") for ent in emitted):
+                tags.add("reentrant-write-in:use")
+            if not failed:
+                lines.append(line)
+                exp.append(res + " " + W.show())
+            del emitted[:]
+            if failed:
+                line = None
+        elif line is not None:
             lines.append(line)
             if failed and not emitted:
                 exp.append(failed)
@@ -806,9 +899,9 @@ def _run(case, kind):
                 if emitted:
                     tags.add("reentrant-write-in:" + k)
                 exp.append(res + " " + (first_snapshot[0] if emitted else W.show()))
-        for l, e in emitted:
-            lines.append(l)
-            exp.append(e)
+        for ent in emitted:
+            lines.append(ent[0])
+            exp.append(ent[1])
         if failed:
             if line is None or emitted:
                 lines.append(line or "write-failed")
@@ -882,7 +975,7 @@ def _run(case, kind):
                         viol.append(("subchannel-callbacks-incomplete",
                                      f"with every listener registered and everything delivered{why}, the protocol of subchannel {scid} on {peer.name} saw {fmt(peer.app_log.get(scid, []))}, issued for it {fmt(want)}"))
                         break
-    nontrivial = bool(tags & {"replay", "duplicate-dropped", "inflight-lost:data", "inflight-lost:ack",
+    nontrivial = bool(tags & {"first-record-is-an-answer", "close-while-peer-has-unacked-data", "replay", "duplicate-dropped", "inflight-lost:data", "inflight-lost:ack",
                               "paused-inside-replay", "write-behind-replay", "ack-not-sent", "op:park",
                               "late-listener", "connect:reentrant", "big-write"})
     return Result(lines, exp, viol, sorted(tags), nontrivial)
@@ -925,7 +1018,13 @@ class AppGen:
     def write(self):
         rng = self.rng
         self.count += 1
-        if rng.random() < 0.12:
+        r0 = rng.random()
+        if r0 < 0.10:
+            # the application answers on (or closes) the n-th subchannel the PEER connected
+            return ["panswer", self.x, rng.choice([0, 0, 1, 2]), bytes(rng.randrange(256) for _ in range(rng.choice([1, 2]))).hex()]
+        if r0 < 0.14:
+            return ["pclose", self.x, rng.choice([0, 0, 1, 2])]
+        if r0 < 0.28:
             names = ["a", "é"] if self.x == "A" else ["a", "é", "g", "g"]
             greetings = [bytes(rng.randrange(256) for _ in range(rng.choice([0, 1, 3]))).hex()
                          for _ in range(rng.choice([0, 1, 1, 2]))]
@@ -1024,6 +1123,35 @@ def gen_realistic(rng, gens, big=0.0):
     return ops
 
 
+def gen_close_race(rng):
+    """both sides write on one subchannel, one closes it while the other still has un-acked writes, the connection is
+    lost asymmetrically (one direction's in-flight suffix delivered, the other's lost) right then; also: the
+    answering side's very first record is that answer"""
+    x, y = rng.choice([("A", "B"), ("B", "A")])        # y connects, x listens / answers / closes
+    name = "a"
+    ops = [["listen", x, name], ["use", "A", rng.choice([0, 0, 2])], ["use", "B", rng.choice([0, 0, 2])]]
+    greet = [bytes([rng.randrange(256)]).hex() for _ in range(rng.choice([0, 1, 2, 3]))]
+    ops.append(["connect", y, name, greet, rng.random() < 0.25])
+    ops += [["deliver", x]] * rng.choice([1, 1, 2, 3])
+    for _ in range(rng.choice([0, 0, 1, 2])):
+        ops.append(["panswer", x, 0, bytes([rng.randrange(256)]).hex()])
+    ops += [["deliver", y]] * rng.choice([0, 1, 2, 3])
+    if rng.random() < 0.3:
+        ops.append(["write", y, "open", 101 if y == "A" else 102, "a"])
+        ops.append(["write", y, "data", 101 if y == "A" else 102, "77"])
+    if rng.random() < 0.8:
+        ops.append(["pclose", x, 0])
+    ops += [["deliver", y]] * rng.choice([0, 1, 2, 3, 4])
+    ops += [["deliver", x]] * rng.choice([0, 0, 1, 2])
+    first, second = rng.choice([("A", "B"), ("B", "A")])
+    ops += [["lose", first]]
+    if rng.random() < 0.4:
+        ops.append(["panswer", x, 0, "ee"])
+    ops += [["lose", second], ["use", "A", rng.choice([0, 1])], ["deliver", "B"], ["use", "B", 0]]
+    ops += [["deliver", rng.choice("AB")] for _ in range(rng.randrange(0, 6))]
+    return ops
+
+
 def corpus():
     out = []
     o = lambda x, scid, n="a": ["write", x, "open", scid, n]
@@ -1100,6 +1228,25 @@ def corpus():
         out.append((w, [["use", "A", 0], ["use", "B", 0], ["connect", "B", "g", ["aa"], False], ["deliver", "A"],
                         ["deliver", "A"], ["deliver", "B"], ["connect", "B", "g", [], True], ["deliver", "A"], ["lose", "B"],
                         ["lose", "A"], ["connect", "B", "a", ["bb"], True], ["use", "A", 0], ["use", "B", 0]]))
+    # 17. both sides write on the same subchannel; one side closes it while the other still has un-acked writes on it;
+    #     asymmetric loss right then (the CLOSE arrives, the writes in the other direction are lost); reconnect:
+    #     the writes must still arrive, before the answering CLOSE
+    for w in ("rec", "l2"):
+        out.append((w, [["listen", "A", "a"], ["use", "A", 0], ["use", "B", 0], ["connect", "B", "a", ["aa", "bb"], False],
+                        ["deliver", "A"], ["pclose", "A", 0], ["deliver", "B"], ["deliver", "B"], ["lose", "B"], ["lose", "A"]]))
+        out.append((w, [["listen", "B", "a"], ["use", "A", 0], ["use", "B", 0], ["connect", "A", "a", ["01"], False],
+                        ["deliver", "B"], ["deliver", "B"], ["panswer", "B", 0, "b1"], ["panswer", "B", 0, "b2"],
+                        ["deliver", "A"], ["deliver", "A"], ["lose", "A"], ["panswer", "B", 0, "b3"], ["pclose", "B", 0],
+                        ["deliver", "A"], ["lose", "B"]]))
+        # 18. a side's very first sequenced record is a DATA (or CLOSE) answering on a subchannel the peer opened; it is
+        #     delivered, its Ack is lost, the connection is replaced while the receiver's watermark is still 0
+        out.append((w, [["listen", "A", "a"], ["use", "A", 0], ["use", "B", 0], ["connect", "B", "a", [], False],
+                        ["deliver", "A"], ["panswer", "A", 0, "01"], ["deliver", "B"], ["deliver", "B"], ["lose", "A"],
+                        ["lose", "B"], ["use", "A", 0], ["use", "B", 0], ["deliver", "B"], ["deliver", "B"],
+                        ["panswer", "A", 0, "02"]]))
+        out.append((w, [["listen", "A", "a"], ["use", "A", 0], ["use", "B", 0], ["connect", "B", "a", ["aa"], False],
+                        ["deliver", "A"], ["deliver", "A"], ["pclose", "A", 0], ["deliver", "B"], ["deliver", "B"],
+                        ["deliver", "B"], ["lose", "B"], ["lose", "A"]]))
     # 9. adversarial: stop_using_connection without a connection
     out.append(("rec", [o("A", 1), ["lose", "A", "force"]]))
     return [dict(kind="sched", world=w, ops=ops) for w, ops in out]
@@ -1172,6 +1319,8 @@ def cases(rng, tier):
             for k in (0, 1, 2):
                 out.append(dict(kind="sched", world="l2", ops=[["listen", "B", "a"], o("A", 1), ["write", "A", "data", 1, size],
                                                                ["use", "A", 0]] + [["deliver", "B"]] * k + [["use", "B", 0]]))
+    for _ in range(80 if tier == "quick" else 2500):
+        out.append(dict(kind="sched", world=rng.choice(["rec", "l2"]), ops=gen_close_race(rng)))
     ex = exhaustive(rng)
     out += ex if tier == "thorough" else ex[:200]
     exp = exhaustive_parked(rng)
